@@ -520,8 +520,8 @@ Definition bind_params (d : fn_def) (args : list value) : option env :=
     match const_bindings d en with Some cs => Some (cs ++ en) | None => None end
   else None.
 
-Fixpoint call (p : program) (depth fuel : nat) (f : string) (args : list value) {struct depth} : option ctl :=
-  if is_builtin f then builtin f args else
+(* user functions; the callee of a body at depth S d is `call p d` (built-ins, then user functions) *)
+Fixpoint call_user (p : program) (depth fuel : nat) (f : string) (args : list value) {struct depth} : option ctl :=
   match depth with
   | 0 => None
   | S d =>
@@ -531,7 +531,8 @@ Fixpoint call (p : program) (depth fuel : nat) (f : string) (args : list value) 
           match bind_params fd args with
           | None => None
           | Some en0 =>
-              match eval (call p d fuel) fuel (fn_body fd) en0 with
+              match eval (fun g vs => if is_builtin g then builtin g vs else call_user p d fuel g vs)
+                         fuel (fn_body fd) en0 with
               | Some (CVal v, _) | Some (CRet v, _) => Some (CVal v)
               | Some (CPanic k m, _) => Some (CPanic k m)
               | _ => None
@@ -539,3 +540,6 @@ Fixpoint call (p : program) (depth fuel : nat) (f : string) (args : list value) 
           end
       end
   end.
+
+Definition call (p : program) (depth fuel : nat) (f : string) (args : list value) : option ctl :=
+  if is_builtin f then builtin f args else call_user p depth fuel f args.
